@@ -15,7 +15,7 @@ package server
 // ASSUMED to be refined by (*diskCache).Put, whose verified contract has the same errclass clause.
 //@ iface (github.com/buchgr/bazel-remote/v2/cache/disk.Cache).Put(c, ctx, kind, hash, size, r)
 //@   pure
-//@   ensures errclass: result == nil || istype(result, "*cache.Error")
+//@   ensures errclass: result == nil || (istype(result, "*cache.Error") && as(result, "*cache.Error") != nil)
 //@   gmodifies casAcked, putN
 //@   gensures putN == old(putN) + 1
 //@   gensures forall k Int :: casAcked[k] == (old(casAcked)[k] || (result == nil && kind == 1 && k == dkey(hash, size)))
@@ -73,6 +73,7 @@ package server
 // Any combination of (reader, size, error) may come back from the cache.
 //@ iface (github.com/buchgr/bazel-remote/v2/cache/disk.Cache).Get(c, ctx, kind, hash, size, offset)
 //@   pure
+//@   ensures typederr: istype(result2, "*cache.Error") ==> as(result2, "*cache.Error") != nil
 //@ iface (io.Closer).Close(c)
 //@   pure
 
